@@ -3,13 +3,24 @@
 (* from_pem (the point string inside a well-formed SubjectPublicKeyInfo) / from_public_point. *)
 (*   c, n, how in {"string", "der", "pem", "point"}, inp = point string (or <<x, y>> for     *)
 (*   "point"), out = [ok, x, y] | [ok |-> FALSE, exc]                                         *)
-EXTENDS PointCodec, TLC, Json, IOUtils
+EXTENDS PointCodec, KeyCodec, TLC, Json, IOUtils
 
 Trace == JsonDeserialize(IOEnv.TRACE_FILE)
 VARIABLE i
 
+(* how = "spki": inp is a complete (possibly damaged) SubjectPublicKeyInfo; oid = the curve's OID arcs.  It is    *)
+(* accepted iff it is the canonical DER of SubjectPublicKeyInfo(id-ecPublicKey, this curve, point string) with a  *)
+(* point string that is not the raw encoding and decodes to a valid point.                                          *)
+WantSpki(e) ==
+  LET k == DecSPKI(e.inp)
+  IN  IF ~k.ok \/ k.alg # OidEcPublicKey THEN [ok |-> FALSE, exc |-> "UnexpectedDER"]
+      ELSE IF k.curve # e.oid THEN [ok |-> FALSE, exc |-> "UnknownCurveError"]
+      ELSE IF Len(k.point) = 2 * FLen(e.c.p) THEN [ok |-> FALSE, exc |-> "UnexpectedDER"]
+      ELSE DecodePoint(e.c, e.n, k.point)
+
 Want(e) ==
-  IF e.how = "point"
+  IF e.how = "spki" THEN WantSpki(e)
+  ELSE IF e.how = "point"
   THEN (IF ValidPoint(e.c, e.n, e.inp[1], e.inp[2]) THEN Accepted(e.inp[1], e.inp[2]) ELSE Malformed)
   ELSE IF e.how \in {"der", "pem"} /\ Len(e.inp) = 2 * FLen(e.c.p)
   THEN [ok |-> FALSE, exc |-> "UnexpectedDER"]              \* the raw encoding is not allowed in DER
